@@ -39,28 +39,28 @@ CHECKS = {
     "C05": (
         "model_checking",
         "explicit-state exploration of create/reindex histories over an exhaustive family of initial directories, every transition executed by the real CLI",
-        "For every ZID-less item variant (kind x priority x long date x spacing x tail) and every ordered pair of a 12-item alphabet in 5 layouts, with and without a pre-existing next_ids.json at carry points, histories over {create, reindex} (with and without the day advancing) are run through the real CLI in fresh processes; in every state: every note has a ZID, the raw index equals the recompiled files field by field (page, line, section path, block, ZID, kind, priority, body, dates, tags, links, properties), each file equals the original except for predicted first lines of formerly ZID-less items, and later runs change nothing.",
+        "For every ZID-less item variant (kind x priority x long date x spacing x tail) and every ordered pair of a 12-item alphabet in 5 layouts, with and without a pre-existing next_ids.json at carry points, histories over {create, reindex} (with and without the day advancing) are run through the real CLI in fresh processes; in every state: every note has a ZID, the raw index equals the recompiled files field by field (page, line, section path, block, ZID, kind, priority, body, dates, tags, links, properties), each file equals the original except for predicted first lines of formerly ZID-less items, file_hash.json lists exactly the pages with their current SHA-256, and later runs change nothing.",
         "ZID-less items with a hand-written modify date are excluded; trusts M3 (sqlite3 reader) and the line-prediction model.",
         "§4 C05",
     ),
     "C06": (
         "model_checking",
         "explicit-state BFS over edit/reindex/day-advance histories on real directories with a differential oracle (incremental index vs fresh db create)",
-        "Breadth-first search to depth 3 (quick) / 4 (thorough) from three initial states over 14 events; states are real directories deduplicated on a canonical digest (files, raw index, hash map, next ids, whitelist, day, guards). In every state reached by a plain reindex the raw index must equal that of a fresh db create on a copy of the final files, files must be settled, and 12 queries must be answered identically by both indexes.",
+        "Breadth-first search to depth 3 (quick) / 4 (thorough) from four initial states (one level less from the two derived ones) over 17 events (edits, add/delete/rename/restore pages, plain and path-restricted reindex, day advance); states are real directories deduplicated on a canonical digest (files, raw index, hash map, next ids, whitelist, day, guards). In every state reached by a plain reindex the raw index must equal that of a fresh db create on a copy of the final files, files must be settled, and 12 queries must be answered identically by both indexes.",
         "One small directory and a fixed menu of edits; rows no query can observe (orphan tag/link rows) are not judged.",
         "§4 C06",
     ),
     "C07": (
         "model_checking",
         "exhaustive enumeration of the finite successor/allocation chain + explicit-state BFS over allocation histories on the real ZIDManager",
-        "All 135,252 suffixes of the successor chain are enumerated and compared with an independent odometer; the whole allocation chain of a date is driven through the real ZIDManager; every suffix (thorough) or every 2-char suffix plus all carry neighbourhoods (quick) is lexed by both generated lexers and compiled back as a note identity; a BFS over alloc/restart/new-process histories from 9 initial persisted maps checks uniqueness, returned==persisted-next and successor==model in every state. The space is finite, so within one date the verdict is complete, not sampled.",
+        "All 135,252 suffixes of the successor chain are enumerated and compared with an independent odometer; the whole allocation chain of a date is driven through the real ZIDManager; every suffix (thorough) or every 2-char suffix plus all carry neighbourhoods (quick) is lexed by both generated lexers and compiled back as a note identity; a BFS over alloc / restart / new-process / other-live-process-allocates histories from 9 initial persisted maps, and round-robin histories over up to 12 (thorough 24) dates with a fresh manager per allocation, check uniqueness, returned==persisted-next and successor==model in every state. The space is finite, so within one date the verdict is complete, not sampled.",
         "Trusts CPython, the antlr4 runtime and the odometer model (mc/models/zid_model.py); dates within one century; no concurrent allocators.",
         "§4 C07",
     ),
     "C08": (
         "exploration",
         "deviation-bounded exhaustive enumeration (0, 1, 2 edits away from valid seed pages + all short token strings) on the real compiler and index commands",
-        "Every single-character deletion/insertion/substitution over an alphabet of up to 30 symbols, every line and token edit of up to 12 seed pages that cover every construct, all pairs of line edits (thorough), and all token strings of length <= 3 are compiled by the real compiler; the oracle is the generated parser's own syntax-error counter (read from the intercepted parser instance, independent of ErrorManager) plus a line-shape item count, and an independent parse-tree walk decides whether a note was reachable. One representative per outcome class is pushed through real db create / db create -f / db reindex and the index is read back with sqlite3.",
+        "Every single-character deletion/insertion/substitution over an alphabet of up to 30 symbols, every line and token edit of up to 12 seed pages that cover every construct, all pairs of line edits (thorough), and all token strings of length <= 3 are compiled by the real compiler; the oracle is the generated parser's own syntax-error counter (read from the intercepted parser instance, independent of ErrorManager) plus a line-shape item count, and an independent parse-tree walk decides whether a note was reachable. One representative per outcome class is pushed through real db create / db create -f / db reindex and the index is read back with sqlite3; whitelist look-alike paths and the whitelist life cycle (still broken, fixed, broken again) are driven through create and reindex.",
         "Lexer-level token-recognition errors (tab, NUL, non-ASCII) are outside the parser's report and only judged for totality; item count for damaged-but-accepted pages uses a line-shape rule.",
         "§4 C08",
     ),
@@ -74,14 +74,14 @@ CHECKS = {
     "C10": (
         "exploration",
         "exhaustive enumeration of (source layout x moved note x ZID mentions x destination shape x marker) through the real CLI on real indexed directories, judged by a line-algebra model and recompilation",
-        "Moved note in 3 forms x 6 positions x 4 ZID-mention patterns x own tags x 10 destination shapes x 3 markers (quick: every value of every dimension in rotation; thorough: the full product of 4320 moves); each case indexes a real directory with db create and runs `zorg note move` in a fresh process. Source must equal the original minus exactly the note's lines; destination must preserve every old line in order with the note inserted once, contiguously; both pages are recompiled: same set of notes, requested kind, body = old body plus inserted metadata words, tags/properties superset, every other note unchanged.",
+        "Moved note in 4 forms (incl. one carrying a modify date) x 6 positions x 4 ZID-mention patterns x 3 own-tag patterns x 13 destination shapes (incl. no trailing newline, template-created, ending in a section header, the source page itself) x 3 markers (quick: every value of every dimension in rotation; thorough: the full product of 11,232 moves); each case indexes a real directory with db create and runs `zorg note move` in a fresh process. Source must equal the original minus exactly the note's lines; destination must preserve every old line in order with the note inserted once, contiguously; both pages are recompiled: same set of notes, requested kind, body = old body plus inserted metadata words, tags/properties superset, every other note unchanged.",
         "Moving into a page that does not exist and has no template must fail without touching the source; inherited links are not required to be carried (the statement names tags and properties).",
         "§4 C10",
     ),
     "C11": (
         "model_checking",
         "explicit-state BFS over edit/reindex/day-advance histories on a real directory with a predictive oracle fed by the previous raw index state",
-        "Breadth-first search (depth 3 from three initial states in quick; depth 5/4/4 in thorough) over 13 events; at every reindex transition the oracle predicts from the previous index rows and the current files exactly which first lines change and how (stamp inserted or replaced before the ZID, ZID inserted for new notes, every other byte identical), compares file bytes, requires index == recompiled files, and requires an immediately following reindex to change nothing. Both directions of the iff are decided on every explored history.",
+        "Breadth-first search (depth 3 from three initial states in quick; depth 5/4/4 in thorough) over 18 events (body, bullet, kind and priority edits incl. done/cancelled todos, a note under a section, a second page, a reorder, a new note, header-only edits, reindex, day advance); at every reindex transition the oracle predicts from the previous index rows and the current files exactly which first lines change and how (stamp inserted or replaced before the ZID, ZID inserted for new notes, every other byte identical), compares file bytes, requires index == recompiled files, and requires an immediately following reindex to change nothing. Both directions of the iff are decided on every explored history.",
         "Current files are read through the real compiler (judged by C01); no hand-written stamps; time does not advance inside a command.",
         "§4 C11",
     ),
@@ -95,21 +95,21 @@ CHECKS = {
     "C13": (
         "fault_enumeration",
         "exhaustive crash-point enumeration with an effect-counting interposer (kill before every external effect; torn writes and crash-during-recovery pairs in the thorough tier)",
-        "For 4 scenarios the real command runs in a child whose file writes, renames, unlinks and SQL commits are counted; for every k the child is killed with os._exit immediately before effect k, the same command is re-run to completion, and the recovery invariant is checked: clean exit, raw index == recompiled files, every note has a ZID, no ZID on two notes, user text multiset unchanged, and files/index/meta equal to the uninterrupted run up to renaming of fresh ZIDs. Thorough adds 0% and 50% torn variants of every file write and all ordered pairs of crash points (crash again during recovery).",
+        "For 5 scenarios (create with ZID-less notes; reindex with stamp + new note + new pages incl. a sub-directory; reindex of pages sharing a tag; create -f with a broken page; reindex whose changes need no write-back) the real command runs in a child whose file writes, renames, unlinks and SQL commits are counted; for every k the child is killed with os._exit immediately before effect k, the same command is re-run to completion, and the recovery invariant is checked: clean exit, raw index == recompiled files, every note has a ZID, no ZID on two notes, user text multiset unchanged, and files/index/meta equal to the uninterrupted run up to renaming of fresh ZIDs. Thorough adds 0% and 50% torn variants of every file write and all ordered pairs of crash points (crash again during recovery).",
         "SQLite commit atomic (journal trusted); no cross-file write reordering or power loss; mkdir is not a crash point.",
         "§4 C13",
     ),
     "C14": (
         "exploration",
         "exhaustive small-scope enumeration of (rename pair x subsets of confusable link texts) through the real CLI, byte-compared with an independent link-token rewrite",
-        "6 renames x every subset of size <= 2 (quick) / <= 3 (thorough) of 13 link texts confusable with the page name (+ the full set), written into the renamed page, another page, a deep page, a .zot template, a .zoq page and a non-zorg file; the real `zorg file rename` runs in a fresh process; file set and every byte must equal the independent rewrite; compiled link sets must differ by exactly the substitution.",
+        "8 renames (plain, B extends A, A extends B, in / into a sub-directory, names with .zo, base names ending in o / z) x every subset of size <= 2 (quick) / <= 3 (thorough) of 13 link texts confusable with the page name (+ the full set), written into the renamed page, another page, a deep page, a .zot template, a .zoq page and a non-zorg file; the real `zorg file rename` runs in a fresh process; file set and every byte must equal the independent rewrite; compiled link sets must differ by exactly the substitution.",
         "Destination directory exists; closed link texts only.",
         "§4 C14",
     ),
     "C15": (
         "exploration",
         "exhaustive enumeration of acyclic saved-query sets x referencing queries on a real index, judged by substitution-as-sub-expression in the set-algebra model",
-        "Every acyclic assignment of 7 reference-free and 3 referencing clause forms to three saved-query names (910 sets, written with three S/O/G wrapper styles) times 10 referencing query forms is expanded by the real expand_saved_queries and executed by the real repository on an index built by db create; the selected ZIDs (or the count) must equal the model's evaluation with every reference substituted as a sub-expression; the expansion must be well-formed and reference-free; 5 queries naming a missing saved query must make expansion fail and execute raise.",
+        "Every acyclic assignment of 8 reference-free and 4 referencing clause forms to three saved-query names (one of them dotted, next to decoy pages whose names are its prefixes; 1,536 sets, written with three S/O/G wrapper styles) times 12 referencing query forms is expanded by the real expand_saved_queries and executed by the real repository on an index built by db create; the selected ZIDs (or the count) must equal the model's evaluation with every reference substituted as a sub-expression; the expansion must be well-formed and reference-free; 10 queries naming a saved query that is missing (directly, at a nested level, or with only a prefix-named page present) must make expansion fail and execute raise.",
         "Acyclic sets only; one designed corpus; saved pages without a W clause are not explored.",
         "§4 C15",
     ),
